@@ -221,6 +221,9 @@ class World:
             cones = self.cones(info)
             kf = cones.kept_functions()
             executed = [n for n in out["log"] if n in kf]
+            reach = [n for n in ref["log"] if n in kf]
+            if any(kf[n] in bm["stored"] for n in reach):
+                self.probe("stored_node_seen_again")
             for n in sorted(set(executed)):
                 if kf[n] in bm["stored"]:
                     self.violate("C02.cone", f"op {i} eval {fn} (v{info['ver']}, {sid}): kept function {n} executed again "
